@@ -105,6 +105,10 @@ fn main() {
                 }
             }
         }
+        "c06-worker" => {
+            engine::install_panic_hook();
+            std::process::exit(props::c06::worker(&args[2..]));
+        }
         "replay" => {
             engine::install_panic_hook();
             let id = &args[2];
